@@ -272,6 +272,8 @@ def judge(fmt, pres, truth, full, N, step_ends, boundaries=None):
         if k not in truth:
             return ('unknown-variable', 'variable %s is not in the file' % k)
         t = truth[k]
+        if a.ndim == t.ndim + 1 and a.shape[1] == 1:
+            a = a[:, 0]        # the record readers give surface fields a layer axis of 1
         if a.ndim != t.ndim or tuple(a.shape[1:]) != tuple(t.shape[1:]):
             # a headerless meteorological file cut on a record boundary inside
             # its FIRST step is itself a well-formed file with fewer layers:
